@@ -26,22 +26,50 @@ if False:
     from .name import Name
 
 
+NO_CUT = float('inf')
+
+
 class EvalCtx(object):
     def __init__(self, project):
         # type: (Project) -> None
         self.project = project
         self.level = 0
-        self.nodes = set()  # type: set[t.Hashable]
+        self.nodes = {}  # type: dict[t.Hashable, int]  # in progress -> level
+        self.values = {}  # type: dict[t.Hashable, Object | None]
+        self.outermost_cut = NO_CUT
 
     def evaluate(self, node):
         # type: (AST | Object | Name | None) -> Object | None
-        if node is None or node in self.nodes:
+        if node is None:
             return None
-        self.nodes.add(node)
+
+        if node in self.nodes:
+            # a cycle: cut here; what is being computed above, down to the
+            # level that node was entered at, depends on this cut
+            self.outermost_cut = min(self.outermost_cut, self.nodes[node])
+            return None
+
+        try:
+            return self.values[node]
+        except KeyError:
+            pass
+
         self.level += 1
-        result = self._evaluate(node)  # type: ignore[no-untyped-call]
-        self.level -= 1
-        self.nodes.remove(node)
+        level = self.nodes[node] = self.level
+        outer_cut = self.outermost_cut
+        self.outermost_cut = NO_CUT
+        try:
+            result = self._evaluate(node)  # type: ignore[no-untyped-call]
+        finally:
+            self.level -= 1
+            del self.nodes[node]
+            cut = self.outermost_cut
+            self.outermost_cut = min(outer_cut, cut)
+
+        if cut >= level:
+            # no cycle was cut at a node entered above this one: the value
+            # is the same in every context, evaluate it once per request
+            self.values[node] = result
         return result  # type: ignore[no-any-return]
 
     def _evaluate(self, node):  # type: ignore[no-untyped-def]
